@@ -38,7 +38,7 @@ func (c09) Runs(tier string) int {
 }
 
 func c09Opts(tier string) core.HistOpts {
-	o := core.HistOpts{Shapes: allShapes, PageMin: 1, PageMax: 6, MinBatches: 0, MaxBatches: 4, MaxOps: 40, Profile: core.Benign, ManyPct: 1, ManyMax: 30}
+	o := core.HistOpts{Shapes: allShapes, PageMin: 1, PageMax: 6, MinBatches: 0, MaxBatches: 4, MaxOps: 40, Profile: core.Benign, ManyPct: 1, ManyMax: 30, HugePct: 3}
 	if tier == "thorough" {
 		o.MaxOps = 80
 		o.BigPagePct = 5
@@ -101,6 +101,9 @@ func (p c09) Run(runseed uint64, tier string, acc *Acc) []*core.Violation {
 	}
 	if w.Many {
 		acc.Inc("class/many-row-groups")
+	}
+	if w.Huge {
+		acc.Inc("class/huge-values")
 	}
 	var vios []*core.Violation
 	nontrivial := 0
